@@ -149,6 +149,11 @@ class Equiv:
                 return
             self.ob(label, as_int_term(eb) == as_int_term(es), extra=[m >= 0, m < to_z3(ls.length)])
             return
+        from .values import ClsRef as _Cls
+
+        if isinstance(vb, _Cls) and isinstance(vs, _Cls):
+            self.ob(label, z3.BoolVal((vb.module, vb.name) == (vs.module, vs.name)))
+            return
         if isinstance(vb, (list, tuple)) and isinstance(vs, (list, tuple)):
             if type(vb) is not type(vs) or len(vb) != len(vs):
                 self.ob(label + ".len", z3.BoolVal(False))
